@@ -36,9 +36,10 @@ REPO = os.environ.get("BEZIER_REPO", "/repo")
 PY = sys.executable
 TABLES = [os.path.join(LEAN, "BezierVerif", "Tables", "SrcPy.lean"),
           os.path.join(LEAN, "BezierVerif", "Tables", "SrcPyReal.lean"),
-          os.path.join(LEAN, "BezierVerif", "Tables", "SrcPyKernels.lean")]
+          os.path.join(LEAN, "BezierVerif", "Tables", "SrcPyKernels.lean"),
+          os.path.join(LEAN, "BezierVerif", "Tables", "SrcPyNewton.lean")]
 OWN_MODULES = {"import BezierVerif.Generated.SrcPy", "import BezierVerif.Tables.SrcPy", "import BezierVerif.Tables.SrcPyReal",
-               "import BezierVerif.Tables.SrcPyKernels"}
+               "import BezierVerif.Tables.SrcPyKernels", "import BezierVerif.Tables.SrcPyNewton"}
 
 # (label, file, function, old text, new text)   -- old text must occur exactly once inside the function
 MUTATIONS = [
@@ -149,6 +150,25 @@ MUTATIONS = [
      "return (num_nodes - 1) * evaluate_multi(", "return num_nodes * evaluate_multi("),
     ("newton_refine: sign of the update", "curve_helpers", "newton_refine",
      "return s + delta_s", "return s - delta_s"),
+    # ---- phase 3: Newton refinement
+    ("full_newton_nonzero: num_nodes1 / num_nodes2 exchanged in the second-derivative net", "intersection_helpers",
+     "full_newton_nonzero", "    second_deriv1 = (num_nodes1 - 2) * (", "    second_deriv1 = (num_nodes2 - 2) * ("),
+    ("full_newton_nonzero: wrong derivative factor", "intersection_helpers", "full_newton_nonzero",
+     "first_deriv1 = (num_nodes1 - 1) * (nodes1[:, 1:] - nodes1[:, :-1])",
+     "first_deriv1 = num_nodes1 * (nodes1[:, 1:] - nodes1[:, :-1])"),
+    ("full_newton_nonzero: first derivative of the wrong curve", "intersection_helpers", "full_newton_nonzero",
+     "first_deriv2 = (num_nodes2 - 1) * (nodes2[:, 1:] - nodes2[:, :-1])",
+     "first_deriv2 = (num_nodes2 - 1) * (nodes1[:, 1:] - nodes1[:, :-1])"),
+    ("full_newton_nonzero: double-root iteration restarts from (s, t)", "intersection_helpers", "full_newton_nonzero",
+     "        evaluate_fn, current_s, current_t\n", "        evaluate_fn, s, t\n"),
+    ("full_newton: result not mapped back", "intersection_helpers", "full_newton",
+     "            return 1.0 - refined_s, refined_t", "            return refined_s, refined_t"),
+    ("newton_refine (curve-curve): sign of the second Jacobian column", "intersection_helpers", "newton_refine",
+     "jac_mat[:, 1:] = -curve_helpers.evaluate_hodograph(t, nodes2)", "jac_mat[:, 1:] = curve_helpers.evaluate_hodograph(t, nodes2)"),
+    ("newton_refine (curve-curve): Jacobian columns exchanged", "intersection_helpers", "newton_refine",
+     "jac_mat[:, :1] = curve_helpers.evaluate_hodograph(s, nodes1)", "jac_mat[:, :1] = curve_helpers.evaluate_hodograph(t, nodes2)"),
+    ("NewtonSimpleRoot.__call__: sign of F", "intersection_helpers", None,
+     "        func_val = b1_s - b2_t\n", "        func_val = b2_t - b1_s\n"),
     ("polygon_collide: `break` (a statement the translator does not know: must be refused)", "helpers", "polygon_collide",
      "                return False", "                break"),
     ("in_interval: statement the translator does not know (must be refused, not skipped)", "helpers", "in_interval",
@@ -188,6 +208,8 @@ HARMLESS = [
      [("index", "k", None)]),
     ("renamed work array (evaluate_multi_de_casteljau: workspace -> buf)", True, "curve_helpers",
      "evaluate_multi_de_casteljau", [("workspace", "buf", None)]),
+    ("renamed local variables (full_newton_nonzero: first_deriv1 -> d1)", True, "intersection_helpers",
+     "full_newton_nonzero", [("first_deriv1", "d1", None)]),
     ("renamed loop variables (add_intersection: existing_s/existing_t -> es/et)", True, "geometric_intersection",
      "add_intersection", [("existing_s", "es", None), ("existing_t", "et", None)]),
     ("renamed list variable (is_separating: params -> ranges)", True, "helpers", "is_separating",
